@@ -550,6 +550,12 @@ func c08Run(w *run.Worker) {
 			{"positional-and-named-duplicate", func() *rt.Node { return rt.Call("id", I(1), rt.Named("x", I(2))) }},
 			{"named-duplicate", func() *rt.Node { return rt.Call("id", rt.Named("x", I(1)), rt.Named("x", I(2))) }},
 			{"positional-after-named", func() *rt.Node { return rt.Call("id", rt.Named("x", I(1)), I(2)) }},
+			// enough arguments by count, a required parameter left out all the same
+			{"missing-required-among-named", func() *rt.Node { return rt.Call("move", I(1), rt.Named("keep", rt.Bool(true))) }},
+			{"missing-required-among-named", func() *rt.Node { return rt.Call("move", rt.Named("to", I(2)), rt.Named("keep", rt.Bool(true))) }},
+			{"missing-required-among-named", func() *rt.Node { return rt.Call("move", rt.Named("keep", rt.Bool(true)), rt.Named("from", I(1))) }},
+			{"missing-argument", func() *rt.Node { return rt.Call("move", I(1)) }},
+			{"surplus-argument", func() *rt.Node { return rt.Call("move", I(1), I(2), rt.Bool(true), I(4)) }},
 		}
 		v1only := map[string]bool{"builtin-arg": true, "len-arg": true, "strfmt-arg": true, "call-named-arg": true, "call-depth-2-named": true}
 		if v1only[c.Name] {
@@ -567,6 +573,8 @@ func c08Run(w *run.Worker) {
 			func() *rt.Node { return rt.Call("one") }, func() *rt.Node { return rt.Call("p") }, func() *rt.Node { return rt.Call("p", I(1), I(2), I(3)) },
 			func() *rt.Node { return rt.Call("void", rt.Call("two")) },
 			func() *rt.Node { return rt.Call("camelId", I(1)) },
+			func() *rt.Node { return rt.Call("move", I(1), I(2)) }, func() *rt.Node { return rt.Call("move", I(1), I(2), rt.Bool(true)) },
+			func() *rt.Node { return rt.Call("move", rt.Named("to", I(2)), rt.Named("from", I(1))) }, func() *rt.Node { return rt.Call("move", I(1), rt.Named("keep", rt.Bool(true)), rt.Named("to", I(2))) },
 		} {
 			if !w.Take() {
 				continue
@@ -715,6 +723,40 @@ func c08Run(w *run.Worker) {
 				if err := full.load(src); err == nil {
 					w.Violate("C08:v1:offender-accepted:pattern-defined-only-in-a-script-loaded-before", fmt.Sprintf("a script using patterns that only the script loaded before it defined is accepted\n--- loaded before ---\n%s--- accepted ---\n%s", valid, src),
 						c08Case{Source: src, Lo: 0, Hi: len(src), Before: valid})
+				}
+				// and each of its grok calls alone, at the top and inside a block (the valid script is loaded
+				// again before each: what it left behind is what the lone call must not profit from)
+				var texts []string
+				var walk func(ns []*rt.Node)
+				walk = func(ns []*rt.Node) {
+					for _, n := range ns {
+						if n == nil {
+							continue
+						}
+						if n.K == rt.KCall && n.S == "grok" && len(n.Kids) == 2 {
+							texts = append(texts, n.Kids[1].S)
+						}
+						walk(n.Kids)
+					}
+				}
+				walk(prog)
+				for _, tx := range texts {
+					for form := 0; form < 3; form++ {
+						lone := []*rt.Node{gk(tx)}
+						switch form {
+						case 1:
+							lone = []*rt.Node{rt.If(Id("c"), rt.Block(gk(tx)))}
+						case 2:
+							lone = []*rt.Node{rt.ForIn("v", Id("l"), rt.Block(rt.If(Id("v"), rt.Block(gk(tx)))))}
+						}
+						lsrc, _ := rt.PrintProg(lone, nil)
+						w.Eval()
+						_ = full.load(valid)
+						if err := full.load(lsrc); err == nil {
+							w.Violate("C08:v1:offender-accepted:pattern-defined-only-in-a-script-loaded-before", fmt.Sprintf("a grok call naming patterns that only the script loaded before it defined is accepted\n--- loaded before ---\n%s--- accepted ---\n%s", valid, lsrc),
+								c08Case{Source: lsrc, Lo: 0, Hi: len(lsrc), Before: valid})
+						}
+					}
 				}
 			}
 		}
